@@ -48,3 +48,51 @@ Proof. intro H. rewrite shiftl_k. apply lor_add_disjoint. apply land_shiftl_low;
 
 Lemma lor_mul_pow2 a b k : b < 2^k -> N.lor (a * 2^k) b = a * 2^k + b.
 Proof. intro H. apply lor_add_disjoint. apply land_shiftl_low; exact H. Qed.
+
+(* ---- forms with the constant on the left (as written in tag.rs) ---- *)
+Lemma land_31_l x : N.land 31 x = x mod 32. Proof. rewrite N.land_comm. apply land_31. Qed.
+Lemma land_127_l x : N.land 127 x = x mod 128. Proof. rewrite N.land_comm. apply land_127. Qed.
+Lemma land_128_l x : N.land 128 x = 128 * ((x / 128) mod 2). Proof. rewrite N.land_comm. apply land_128. Qed.
+Lemma land_192 x : x < 256 -> N.land x 192 = 64 * (x / 64).
+Proof.
+  intro H. change 192 with (N.lor 128 64). rewrite N.land_lor_distr_r.
+  rewrite land_128. change 64 with (2^6) at 1. rewrite land_pow2.
+  rewrite lor_add_disjoint.
+  - change (2^6) with 64. lia.
+  - change (2^6) with 64.
+    replace (128 * ((x / 128) mod 2)) with ((x / 128) mod 2 * 2^7) by (change (2^7) with 128; lia).
+    apply land_shiftl_low. change (2^7) with 128. lia.
+Qed.
+Lemma land_223 x : x < 256 -> N.land x 223 = x - 32 * ((x / 32) mod 2).
+Proof.
+  intro H.
+  assert (E : N.land x 255 = x) by (rewrite land_255; lia).
+  change 255 with (N.lor 223 32) in E. rewrite N.land_lor_distr_r in E.
+  rewrite lor_add_disjoint in E.
+  - rewrite land_32 in E. lia.
+  - apply N.bits_inj; intro i. rewrite !N.land_spec, N.bits_0.
+    assert (Hd : N.testbit 223 i && N.testbit 32 i = false)
+      by (rewrite <- N.land_spec; change (N.land 223 32) with 0; apply N.bits_0).
+    destruct (N.testbit x i), (N.testbit 223 i), (N.testbit 32 i); cbn in *; congruence.
+Qed.
+Lemma lor_32 a : (a / 32) mod 2 = 0 -> N.lor a 32 = a + 32.
+Proof.
+  intro H. apply lor_add_disjoint. rewrite land_32. lia.
+Qed.
+Lemma lor_128_low x : x < 128 -> N.lor x 128 = x + 128.
+Proof. intro H. apply lor_add_disjoint. rewrite land_128. lia. Qed.
+Lemma lor_cls k y : y < 64 -> N.lor (k * 64) y = k * 64 + y.
+Proof. intro H. change 64 with (2^6). apply lor_mul_pow2. exact H. Qed.
+Lemma lor_mul_128 a b : b < 128 -> N.lor (a * 128) b = a * 128 + b.
+Proof. intro H. change 128 with (2^7). apply lor_mul_pow2. exact H. Qed.
+Lemma lor3_septets a b c : b < 128 -> c < 128 ->
+  N.lor (N.lor (a * 16384) (b * 128)) c = a * 16384 + b * 128 + c.
+Proof.
+  intros Hb Hc.
+  replace (a * 16384) with (a * 128 * 128) by lia.
+  rewrite (lor_add_disjoint (a * 128 * 128) (b * 128)).
+  - replace (a * 128 * 128 + b * 128) with ((a * 128 + b) * 128) by lia.
+    rewrite lor_mul_128 by exact Hc. lia.
+  - replace (a * 128 * 128) with (a * 2^14) by (change (2^14) with 16384; lia).
+    apply land_shiftl_low. change (2^14) with 16384. lia.
+Qed.
